@@ -611,7 +611,10 @@ def reader_inputs(ck):
              '[Zy]', '[Uuo]', '[Cl-]', '[Fe+++]', '[O-2]', '[NH4+]', '[2H]', '[H][H]', '[H]', '[HH]', '(C)C', '(C)', '((C))', 'C(C)(C)', 'C((C))', 'C(C', 'CC)',
              'C(=O)', 'C()C', 'C(.C)C', 'C.(C)', 'C(.C)', 'C=.C', 'C.=C', 'C==C', 'C=', '=C', 'C-;@C', 'C!~C', ';', ';@', 'C!', 'C-,=C', 'C~C', 'C$C', '*', 'C*',
              '[*]', 'C1.C1', 'C1C.C1', 'C.1C', 'C%', 'C%1', 'C%1C%1', 'C0', 'C%00', 'Cl', 'Br', 'ClBr', 'Bl', 'Cr', '[Cr]', 'Sc', 'Sn', 'Cn', 'cn', 'B', 'b1ccccc1',
-             'C\xb2', 'C\xb9CC\xb9', 'C1CC1 junk', 'C1CC1\t|^1:0|\textra']
+             'C\xb2', 'C\xb9CC\xb9', 'C1CC1 junk', 'C1CC1\t|^1:0|\textra',
+             '[C+-]', '[C-+]', '[NH3+-]', 'CC(=O)[O-+]', 'c1cc[n+-]cc1', '[OH-+]>>[OH2]', '[C+5]', '[C+0]', '[C++++]', '[C+++++]', '[C-4]', '[C--]',
+             '[CH4:1]>O[Na:2]>[CH4:1]', 'CC>[Na+:3].[OH-]>CC', '[CH3:1][OH:2]>[Na+:3].[OH-]>[CH3:1][OH:2]', '[CH3:1]Br>CC[O-:2].[Na+]>[CH3:1]O',
+             '[CH3:2]O>[Na+:1].[Cl-:7]>[CH3:2]O', '>[Na+:4]>C', 'C>[Na+:4]>']
     out += [('fixed', s) for s in fixed]
     lip = corpus.sample(corpus.lipo(), 120 if quick else 1200, ck.seed, 'c03read')
     out += [('corpus', s) for s in lip]
@@ -1053,6 +1056,136 @@ def bond_count_oracle(ck, s, mol):
                           replay_py=f"from chython import smiles\nm = smiles({s!r})\nprint(len(m), sum(len(v) for v in m._bonds.values()) // 2)")
 
 
+BRACKET_RE = re.compile(r'\[(\d{1,3})?([A-Z][a-z]?|c|n|o|p|s|b|se|as|te)(@@?)?(H[1-4]?)?(\+{1,4}|-{1,4}|[+-][1-4])?(:\d+)?\]')
+
+
+def written_charge(field):
+    """the charge a SMILES charge field denotes (sign and digit, or the sign repeated)"""
+    if not field:
+        return 0
+    sign = 1 if field[0] == '+' else -1
+    return sign * (int(field[1]) if len(field) == 2 and field[1].isdigit() else len(field))
+
+
+def bracket_oracle(ck, s, mol):
+    """independent of model, tables and RDKit: every bracket atom of an ACCEPTED molecule text must be a bracket atom of the SMILES
+    language (own grammar, in particular the charge field: sign + digit 1-4, or one sign repeated 1-4 times), and the atom built
+    must carry the isotope, the charge and the hydrogen count that are written"""
+    toks = [t for t in TOKEN_RE.findall(s) if t[0] == '[' or t[0].isalpha()]
+    if len(toks) != len(mol._atoms):
+        return
+    for tok, (n, a) in zip(toks, mol._atoms.items()):
+        if tok[0] != '[':
+            continue
+        m = BRACKET_RE.fullmatch(tok)
+        ck.case(('bracket', tok), nontrivial=m is not None)
+        if m is None:
+            ck.counterexample(f'accepted-outside-language:bracket-atom:{tok}', 'a bracket atom outside the SMILES language is accepted', {'smiles': s, 'atom': tok},
+                              f'molecule {mol}, atom {n}: charge {a.charge}', 'IncorrectSmiles', 'bracket-atom grammar of the harness',
+                              replay_py=f"from chython import smiles\nprint(smiles({s!r}))")
+            continue
+        iso, el, _, _, q, _ = m.groups()
+        want = (int(iso) if iso else None, written_charge(q))
+        if (a.isotope, a.charge) != want:
+            ck.counterexample(f'bracket-fields:{tok}', 'the atom built does not carry the isotope / charge written in the bracket', {'smiles': s, 'atom': tok},
+                              (a.isotope, a.charge), want, 'bracket-atom grammar of the harness',
+                              replay_py=f"from chython import smiles\nm = smiles({s!r})\nprint([(a.isotope, a.charge) for _, a in m.atoms()])")
+
+
+def written_maps(piece):
+    """[(atom position in the piece, written map)] of one molecule text"""
+    out = []
+    for i, t in enumerate(x for x in TOKEN_RE.findall(piece) if x[0] == '[' or x[0].isalpha()):
+        m = re.search(r':(\d+)\]$', t)
+        if m and int(m.group(1)):
+            out.append((i, int(m.group(1))))
+    return out
+
+
+def reaction_oracle(ck, s):
+    """rebuild from the parts, independent of postprocess_parsed_reaction: every molecule text of the reaction is read ALONE; the
+    reaction built from the whole text must hold the same molecules (count and atoms per role); atom numbers are pairwise distinct
+    within a role, reagent numbers do not occur among reactants / products, and an atom map written once in the whole text is kept"""
+    from chython.containers import MoleculeContainer, ReactionContainer
+    if ' ' in s or s.count('>') != 2:
+        return False
+    roles = [[x for x in part.split('.') if x] for part in s.split('>')]          # reactants, reagents, products
+    if not any(roles):
+        return False
+    alone = []
+    for ps in roles:
+        row = []
+        for piece in ps:
+            m, e = classify(piece)
+            if not isinstance(m, MoleculeContainer):
+                return False
+            row.append(m)
+        alone.append(row)
+    rxn, e = classify(s)
+    ck.case(('rxn-rebuild', s), nontrivial=sum(len(r) for r in roles) > 1)
+    ck.count('reaction-oracle:compared')
+    problems = []
+    if not isinstance(rxn, ReactionContainer):
+        problems.append(f'every molecule reads alone, the reaction raises {type(e).__name__}: {e}')
+    else:
+        built = [list(rxn.reactants), list(rxn.reagents), list(rxn.products)]
+        names = ('reactants', 'reagents', 'products')
+        for name, ps, ms, bs in zip(names, roles, alone, built):
+            if len(bs) != len(ms):
+                problems.append(f'{name}: {len(ms)} molecule(s) written, {len(bs)} built')
+                continue
+            for piece, m, b in zip(ps, ms, bs):
+                if [a.atomic_symbol for _, a in m.atoms()] != [a.atomic_symbol for _, a in b.atoms()]:
+                    problems.append(f'{name}: {piece} built as {b}')
+            nums = [n for b in bs for n in b._atoms]
+            if len(set(nums)) != len(nums):
+                problems.append(f'{name}: atom numbers not unique: {nums}')
+        if not problems:
+            rp = {n for b in built[0] + built[2] for n in b._atoms}
+            clash = [n for b in built[1] for n in b._atoms if n in rp]
+            if clash:
+                problems.append(f'reagent atom numbers {clash} also number reactant / product atoms')
+            count = {}
+            for ps in roles:
+                for piece in ps:
+                    for _, mp in written_maps(piece):
+                        count[mp] = count.get(mp, 0) + 1
+            for name, ps, bs in zip(names, roles, built):
+                for piece, b in zip(ps, bs):
+                    nums = list(b._atoms)
+                    for i, mp in written_maps(piece):
+                        if count[mp] == 1 and i < len(nums) and nums[i] != mp:
+                            problems.append(f'{name}: atom written with map :{mp} (the only one) in {piece} is numbered {nums[i]}')
+    if problems:
+        ck.counterexample(f'rxn-rebuild:{s}', 'the reaction built differs from its molecules read one by one / its atom numbers break the mapping rules',
+                          {'smiles': s}, problems[:4], 'same molecules per role; distinct numbers per role; reagents disjoint; unique written maps kept',
+                          'rebuild from the molecule texts read alone',
+                          replay_py=f"from chython import smiles\nr = smiles({s!r})\nprint(format(r, 'm'))")
+    return True
+
+
+def gen_mapped_reaction(rng):
+    """small reactions with atom maps in all three roles (reagent maps above / below / equal to the others), unmapped atoms around"""
+    def mol(maps):
+        n = rng.randint(1, 3)
+        out = ''
+        for _ in range(n):
+            el = rng.choice(['C', 'N', 'O', 'Na', 'Cl'])
+            h = rng.choice(['', '', 'H', 'H2', 'H3']) if el in 'CNO' else ''
+            q = rng.choice(['', '', '', '+', '-'])
+            if rng.random() < 0.55 or h or q or len(el) == 2 and el != 'Cl':
+                mp = f':{rng.choice(maps)}' if rng.random() < 0.6 else ''
+                out += f'[{el}{h}{q}{mp}]'
+            else:
+                out += el
+        return out
+
+    def side(maps):
+        return '.'.join(mol(maps) for _ in range(rng.randint(0, 2)))
+    lo, hi = [1, 2, 3], [4, 5, 6, 9]
+    return side(lo) + '>' + side(rng.choice([lo, hi, hi, lo + hi])) + '>' + side(lo)
+
+
 def rdkit_compare(ck, s, kind):
     """compare chython's and RDKit's reading of a molecule text on the common dialect. returns True when compared"""
     from chython.containers import MoleculeContainer
@@ -1173,6 +1306,12 @@ def directed_search(ck, seeds):
             if e is not None and not isinstance(e, ValueError):
                 report_crash(ck, s, kw, e)
         rdkit_compare(ck, s.split()[0] if s.split() else s, 'directed')
+        if s.count('>') == 2:
+            reaction_oracle(ck, s.split()[0] if s.split() else s)
+        elif '[' in s and ' ' not in s:
+            mol, _ = classify(s)
+            if mol is not None and hasattr(mol, '_atoms'):
+                bracket_oracle(ck, s, mol)
         if '/' in s or '\\' in s:
             rdkit_ez(ck, s.split()[0] if s.split() else s)
     ck.extra['directed_search_texts'] = len(pool)
@@ -1195,6 +1334,11 @@ def search(ck):
         stream.append(s)
     stream += ['C\u0663CC\u0663', 'C%\u0661\u0662CC%12', '[\u0661\u0662C]', 'C\xb2', 'N\\C(S)=C(\\C)/1CCCCC1', 'C-;@C', 'C!~C', ';', ';@', 'C-;@;@C', '(', 'C |^1:5|',
                'C>>C |^1:5|', 'C.O>> |f:0.1|', '\x00', 'C\x00C', 'C' * 3000, '(' * 500 + 'C' + ')' * 500, 'C1' * 60, '[' + 'C' * 5000 + ']', 'C%99' * 40]
+    # every charge field over + - and digits, on three elements and inside molecules (only the language's spellings may be accepted)
+    fields = [''.join(t) for L in (1, 2, 3) for t in itertools.product('+-1234', repeat=L)] + ['++++', '----', '+++++', '+-+-', '-+-+']
+    stream += [f'[{el}{f}]' for el in ('C', 'NH3', 'Fe') for f in fields if f[0] in '+-']
+    stream += ['CC(=O)[O-+]', 'c1cc[n+-]cc1', '[OH-+]>>[OH2]', 'C[N+-](C)C', '[13CH3-+:1]', '[O-+]']
+    from chython.containers import MoleculeContainer
     n_exc = {}
     for s in stream:
         for kw in ({}, {'ignore': False}, {'remap': True, 'ignore_stereo': True}):
@@ -1204,6 +1348,8 @@ def search(ck):
             n_exc[key] = n_exc.get(key, 0) + 1
             if e is not None and not isinstance(e, ValueError):
                 report_crash(ck, s, kw, e)
+            if e is None and not kw and isinstance(res, MoleculeContainer) and '[' in s and ' ' not in s:
+                bracket_oracle(ck, s, res)
             if e is None and any(ord(c) > 127 for c in s.split()[0]):
                 ck.counterexample(f'accepted-outside-language:{s}', 'a text with non-ASCII characters in the SMILES part is accepted', {'smiles': s},
                                   str(res), 'IncorrectSmiles', 'the SMILES alphabet is ASCII', replay_py=f"from chython import smiles\nprint(smiles({s!r}))")
@@ -1237,6 +1383,18 @@ def search(ck):
     for s in corpus.sample([x for x in lip if '/' in x or '\\' in x], 60 if quick else 600, ck.seed, 'c03ez'):
         n_ez += rdkit_ez(ck, s)
     ck.extra['rdkit_ez_compared'] = n_ez
+    # (4) reactions rebuilt from their molecules read alone; atom-number rules
+    n_rx = 0
+    fixed_rx = ['[CH4:1]>O[Na:2]>[CH4:1]', 'CC>[Na+:3].[OH-]>CC', '[CH3:1][OH:2]>[Na+:3].[OH-]>[CH3:1][OH:2]', '[CH3:1]Br>CC[O-:2].[Na+]>[CH3:1]O',
+                '[CH3:1][OH:2]>>[CH3:1][OH:2]', 'C>O>C', '[CH3:5]C>[OH2:9]>[CH3:5]C', '[CH3:1]Br.[OH-:2]>[Na+]>[CH3:1][OH:2].[Br-]', 'CC.O>>CCO',
+                '[CH3:2]O>[Na+:1].[Cl-:7]>[CH3:2]O', '>[Na+:4]>C', 'C>[Na+:4]>', '[CH3:1][CH3:1]>>C', '[C:1]>[O:1]>[C:1]', 'C.C.C>N.N>O.O']
+    for s in fixed_rx:
+        n_rx += reaction_oracle(ck, s)
+    for _ in range(500 if quick else 6000):
+        n_rx += reaction_oracle(ck, gen_mapped_reaction(rng))
+    for _ in range(150 if quick else 2000):
+        n_rx += reaction_oracle(ck, gen_reaction(rng).split()[0])
+    ck.extra['reaction_oracle_compared'] = n_rx
     return True
 
 
